@@ -72,8 +72,8 @@ def gen_consts(fam, frags="NoFrags", op='"query"', maxsel=2, maxnodes=3, maxdept
 C01_INV = ["Emit", "KeyPresence", "WellFormedRoot"]
 
 
-def c01_family(name, replay="C01", inv=C01_INV, **kw):
-    return tlc_replay("MC_C01_" + name, "MC_C01", replay, dict(constants=gen_consts(**kw), invariants=inv))
+def c01_family(name, replay="C01", inv=C01_INV, timeout=900, **kw):
+    return tlc_replay("MC_C01_" + name, "MC_C01", replay, dict(constants=gen_consts(**kw), invariants=inv), timeout=timeout)
 
 
 def ops_family(name, replay, tables="OT_OpsThunks"):
@@ -95,11 +95,12 @@ def c01_stages(tier, seed):
     return [
         ops_family("c01", "C01"),
         c01_family("F1_t", fam="F1", leafs="F1_Leafs", maxsel=4, maxnodes=4),
-        c01_family("F2_t", fam="F2", leafs="F2_Leafs", comps="F2_Comps", maxsel=3, maxnodes=6, maxdepth=3, dirs="DirsDyn"),
+        c01_family("F2_t", fam="F2", leafs="F2_Leafs", comps="F2_Comps", maxsel=3, maxnodes=5, maxdepth=3, dirs="DirsDyn",
+                   timeout=3000),
         c01_family("F3_t", fam="F3", frags="FragsFG", leafs="F3_Leafs", inlines="F3_Inlines", spread="SpreadLater",
-                   maxsel=3, maxnodes=6, maxdepth=2, dirs="DirsOne"),
-        c01_family("F4_t", fam="F4", leafs="F4_Leafs", comps="F4_Comps", inlines="F4_Inlines", maxsel=3, maxnodes=6,
-                   maxdepth=3, dirs="DirsOne", outs="OT_Abstract"),
+                   maxsel=3, maxnodes=5, maxdepth=2, dirs="DirsOne", timeout=3000),
+        c01_family("F4_t", fam="F4", leafs="F4_Leafs", comps="F4_Comps", inlines="F4_Inlines", maxsel=3, maxnodes=5,
+                   maxdepth=3, dirs="DirsOne", outs="OT_Abstract", timeout=3000),
         c01_family("F5_t", fam="F5", leafs="F5_Leafs", maxsel=3, maxnodes=3, dirs="DirsOne"),
     ]
 
@@ -113,7 +114,7 @@ def c04_stage(name, docs, maxf, alpha, replay="C04"):
 def c04_stages(tier, seed):
     if tier == "quick":
         return [c04_stage("small2", "{1,2,3,4,5,6,7}", 2, "small"), c04_stage("full1", "{1,2,3,4,5,6,7}", 1, "full")]
-    return [c04_stage("small3", "{1,2,3,4,5,6,7}", 3, "small"), c04_stage("full2", "{1,2,3,4,5,6,7}", 2, "full")]
+    return [c04_stage("small3", "{1,2,3,4,5,6,7}", 3, "small"), c04_stage("full3", "{1,2,3,4,5,6,7}", 3, "full")]
 
 
 ALL_ARGS = '{"i","ni","fl","st","bo","id","e","ne","cu","li","lni","nli","lli","le","in","nin","lin","in2","in3"}'
